@@ -112,7 +112,9 @@ func GenerateKey(rand io.Reader) (PublicKey, PrivateKey, error) {
 
 // BlindPublicKeyWithContext augments the public key pair by the blind key and context string.
 func BlindPublicKeyWithContext(publicKey PublicKey, blind []byte, context []byte) (PublicKey, error) {
-	blindContext := append(blind, 0x00)
+	blindContext := make([]byte, 0, len(blind)+1+len(context))
+	blindContext = append(blindContext, blind...)
+	blindContext = append(blindContext, 0x00)
 	blindContext = append(blindContext, context...)
 	b := sha512.Sum512(blindContext)
 	r := edwards25519.NewScalar().SetBytes(b[:32])
@@ -135,7 +137,9 @@ func BlindPublicKey(publicKey PublicKey, blind []byte) (PublicKey, error) {
 
 // UnblindPublicKey unblinds the public key pair by the blind key and context string.
 func UnblindPublicKeyWithContext(publicKey PublicKey, blind []byte, context []byte) (PublicKey, error) {
-	blindContext := append(blind, 0x00)
+	blindContext := make([]byte, 0, len(blind)+1+len(context))
+	blindContext = append(blindContext, blind...)
+	blindContext = append(blindContext, 0x00)
 	blindContext = append(blindContext, context...)
 	b := sha512.Sum512(blindContext)
 
@@ -255,7 +259,9 @@ func blindKeySign(signature, privateKey, blind, message, context []byte) {
 		panic("ed25519: bad blind length: " + strconv.Itoa(l))
 	}
 
-	blindContext := append(blind, 0x00)
+	blindContext := make([]byte, 0, len(blind)+1+len(context))
+	blindContext = append(blindContext, blind...)
+	blindContext = append(blindContext, 0x00)
 	blindContext = append(blindContext, context...)
 	b := sha512.Sum512(blindContext)
 
